@@ -182,6 +182,7 @@ pub fn laps() -> Vec<Lap> {
         Lap { three_readers_every: 0, name: "long-keys-overwrite-reopen-every-40", reopen_every: 40, reader_stretch: None, kind: 5 },
         Lap { three_readers_every: 0, name: "one-9-MiB-value-overwritten (24 transactions)", reopen_every: 0, reader_stretch: None, kind: 6 },
         Lap { three_readers_every: 0, name: "nested-bucket-then-ancestor-deleted-and-rebuilt", reopen_every: 0, reader_stretch: None, kind: 7 },
+        Lap { three_readers_every: 3000, name: "fixed-size-overwrite-with-a-reader-dropped-by-a-panic-every-25", reopen_every: 0, reader_stretch: None, kind: 0 },
         Lap { three_readers_every: 2000, name: "reopen-then-reader-before-the-first-writer-every-round", reopen_every: 0, reader_stretch: None, kind: 1 },
         Lap { three_readers_every: 1037, name: "variable-size-with-two-readers-of-the-same-snapshot-every-37 (first one closed early)", reopen_every: 0, reader_stretch: None, kind: 1 },
         Lap { three_readers_every: 60, name: "variable-size-with-three-overlapping-readers-every-60", reopen_every: 0, reader_stretch: None, kind: 1 },
@@ -277,7 +278,11 @@ pub fn run_lap(lap: &Lap, n: usize, path: &str) -> Value {
                 r.step(&Action::CloseReader(0), &Oracles::NONE);
             }
         }
-        if lap.three_readers_every == 2000 {
+        if lap.three_readers_every == 3000 {
+            if i % 25 == 7 {
+                r.step(&Action::PanicWithReader, &Oracles::NONE);
+            }
+        } else if lap.three_readers_every == 2000 {
             // every round: close and reopen the handle, open a reader, one commit, close the reader
             if r.num_readers() > 0 {
                 r.step(&Action::CloseReader(0), &Oracles::NONE);
@@ -325,7 +330,7 @@ pub fn run_lap(lap: &Lap, n: usize, path: &str) -> Value {
             r.step(&Action::Tx { ops, commit: false }, &Oracles::NONE);
         }
         let ops = lap_ops(lap.kind, i);
-        let or = if lap.three_readers_every > 1000 && lap.three_readers_every != 2000 && r.num_readers() > 0 { Oracles { readers_frozen: true, ..Oracles::NONE } } else if i % 97 == 0 { Oracles { dump_after: true, ..Oracles::NONE } } else { Oracles::NONE };
+        let or = if lap.three_readers_every > 1000 && lap.three_readers_every < 2000 && r.num_readers() > 0 { Oracles { readers_frozen: true, ..Oracles::NONE } } else if i % 97 == 0 { Oracles { dump_after: true, ..Oracles::NONE } } else { Oracles::NONE };
         let v = r.step(&tx(ops), &or);
         for x in v {
             if viols.len() < 5 {
